@@ -23,3 +23,5 @@ Example C01_nonvacuous :
   let p := PAnd (POr (PNot (PNamed "p")) (PNamed "q")) (PXor (PNamed "p") (PAnd PTrue (PNot (PNot (PNamed "r"))))) in
   Fprop p = true /\ exists q, optimize (W_ex []) 100 p = Ok q [] /\ peq q p = false.
 Proof. cbv zeta. split; [reflexivity|]. eexists. split; [vm_compute; reflexivity|vm_compute; reflexivity]. Qed.
+
+Print Assumptions C01_nonvacuous.
